@@ -56,7 +56,7 @@ CHECKS.update({
  "C29": U("(a) 398 (quick) / 2,328 (thorough) generated programs whose token stream and statement boundaries are known from the generator's structured printer: EVERY single layout change (one of 6 block comments in every gap between two tokens, one of 3 line comments at every line end, every statement separator as `;` (`,` between match arms), a blank line at every statement boundary; all pairs of changes on short programs in thorough); (b) the 12 (quick) / 60 (thorough) shortest repository corpus programs with a block comment before every token and a line comment at every line end;",
           "the compile verdict and the run observation (emits, output, end kind) equal those of the unchanged program.",
           "Deviation 1 (pairs only on short programs); comments containing a newline, and `,`/newline flips of list separators, are not generated; error line numbers are not compared.", "DESIGN.md §3 C29"),
- "C01": U("the shared program universe U-prog (typed generator: expression trees with tracing calls, statement lists with loops/break/continue/return, functions/recursion/lambdas, data with aliasing and void components, matches; 5.6 k programs quick / 250 k thorough) plus the strata S-empty (operations on empty/singleton arrays), S-task (tasks capturing every kind of value), S-jump (break/continue/return/? in every operand position) and S-voidvariant, each program under EVERY uniform budget in {1,2,3,7,64,MAX};",
+ "C01": U("the shared program universe U-prog (typed generator: expression trees with tracing calls, statement lists with loops/break/continue/return, functions/recursion/lambdas, data with aliasing and void components, matches incl. arms that shadow an enclosing name, depth-2 string-operation expressions over prefix-related operands; 24 k programs quick / 270 k thorough) plus the strata S-empty (operations on empty/singleton arrays), S-task (tasks capturing every kind of value), S-jump (break/continue/return/? in every operand position) and S-voidvariant, each program under EVERY uniform budget in {1,2,3,7,64,MAX};",
           "the run ends normally or with one of the four documented runtime errors: no Rust panic, no type-tag fault, no internal error; an operand-stack leak monitor compares the final stack depth after running a case's body once and three times (as a function and inlined as a block).",
           "Bounded generator depth; `break`/`continue` out of an operand position is an open known finding confined to S-jump.", "DESIGN.md §3 C01"),
  "C02": U("the same universe U-prog (plus 398 / 2,328 of its programs as whole standalone programs);",
@@ -109,7 +109,7 @@ CHECKS.update({
  "C20": U("the full table of 15 binding forms x 6 assignment operators x 3 targets (variable, field, element) (x nested-if position in thorough), each program compiled standalone;",
           "let forms and lambda captures are rejected with a diagnostic; var, element and field targets are accepted with the modelled effect; other forms are rejected or accepted with the plain effect; never a panic.",
           "int-typed targets only.", "DESIGN.md §3 C20"),
- "C21": U("all import layouts of three files (7 x 7 import forms x main's own declaration) with positive/negative/clash programs, plus all nests of <= 2 (quick) / 3 (thorough) scopes from block/if/while/for/arm/lambda with every let-before/after pattern;",
+ "C21": U("all import layouts of three files (7 x 7 import forms x main's own declaration) with positive/negative/clash programs, plus all nests of <= 2 (quick) / 3 (thorough) scopes from block/if/while/for/arm/lambda with every let-before/after pattern, plus the sibling-scope family (a name bound in one arm / branch / block / loop / lambda must not be visible in a later sibling);",
           "a model resolver predicts the chosen declaration (observed by its tag), an unresolved-identifier diagnostic, or a clash diagnostic; an environment-stack model predicts every read in nested scopes.",
           "Bounded file/name counts; importing a name the file lacks, same-scope redeclaration and unaliased fully qualified names are unspecified.", "DESIGN.md §3 C21"),
  "C22": U("23 generic functions x all ordered pairs of 10 (quick) / 21 (thorough) instantiation types satisfying their constraints, plus direct operator / for / index uses on user types;",
